@@ -165,7 +165,8 @@ PROPS = {
                     "Idempotence and higher arities: bounded run-time check.",
         not_decided=["idempotence clause (bounded only)", "arity >= 3 of align_indeterminants, >= 4 of the others (bounded only)"],
     ),
-    "C05": dict(level="other", contracts=["numpoly.poly_divmod", "numpoly.poly_divide", "numpoly.poly_remainder"],
+    "C05": dict(level="other", contracts=["numpoly.poly_divmod", "numpoly.get_division_candidate", "numpoly.poly_divide",
+                                          "numpoly.poly_remainder", "numpoly.multiply", "numpoly.where"],
                 explanation="poly_divmod (real source) is proved at the level of abstract polynomial values in a commutative ring: "
                 "loop invariant dividend0 = quotient*divisor0 + dividend_ for every element (initiation from numpoly.zeros and the "
                 "aligned operands, preservation through add/subtract/where/multiply and the re-alignment, exit through the "
@@ -176,8 +177,8 @@ PROPS = {
                 "poly_divmod on the same operands in order; the operator methods' routing is proved under C08. Termination, and "
                 "the clauses resting on it (constant divisors, exact multiples, degree of the remainder), rounding: bounded run-time "
                 "checks (conc/checks_c05.py: exact-arithmetic oracle, iteration counter, state-repeat detection).",
-                trusted_base=COMMON_TRUSTED + ["assumed value-level contracts: multiply, power/prod (monomial), zeros, where, "
-                                               "get_division_candidate (bounded under C01/C05/C09/C10)",
+                trusted_base=COMMON_TRUSTED + ["get_division_candidate, multiply and where are proved from their source (the clauses the "
+                                               "loop uses); assumed value-level contracts: power/prod in the monomial form, zeros",
                                                "contracts of add/subtract (C01), align_polynomials (C04), __getitem__ (C09)"],
                 assumptions=["PV is a commutative ring (ring axioms as hypotheses; MvPolynomial in Mathlib)",
                              "B8: the forced-zero write does not change the polynomial denoted (exact arithmetic)", "A1"],
